@@ -727,6 +727,9 @@ class InterpolatedPredictionStrategy(DefaultPredictionStrategy):
         return res
 
     def exact_predictive_covar(self, test_test_covar, test_train_covar):
+        if settings.skip_posterior_variances.on():
+            return ZeroLinearOperator(*test_test_covar.size())
+
         if settings.fast_pred_var.off() and settings.fast_pred_samples.off():
             return super(InterpolatedPredictionStrategy, self).exact_predictive_covar(test_test_covar, test_train_covar)
 
@@ -888,6 +891,9 @@ class SGPRPredictionStrategy(DefaultPredictionStrategy):
         )
 
     def exact_predictive_covar(self, test_test_covar, test_train_covar):
+        if settings.skip_posterior_variances.on():
+            return ZeroLinearOperator(*test_test_covar.size())
+
         covar_cache = self.covar_cache
         # covar_cache = K_{UU}^{-1/2} K_{UX}( K_{XX} + \sigma^2 I )^{-1} K_{XU} K_{UU}^{-1/2}
 
